@@ -180,10 +180,10 @@ func checkC19(c *Ctx) {
 		checkHook(c, b, appliers, hookType)
 
 		// ---- path / session header facts
-		if appliesPath(b) {
+		if appliesPath(c, b) {
 			pathAppliers[tkey] = append(pathAppliers[tkey], b)
 		}
-		if setsHeaderConst(b, "Mcp-Session-Id") {
+		if setsHeaderConst(c, b, "Mcp-Session-Id") {
 			sessionSetters[tkey] = append(sessionSetters[tkey], b)
 		}
 	}
@@ -405,11 +405,13 @@ func headerOfReq(v ssa.Value, reqVals map[ssa.Value]bool) bool {
 	return ok && f.Name == "Header" && reqVals[base]
 }
 
-func staticHeadersApplied(c *Ctx, b *builder) (bool, string) {
-	reqVals := derivedReq(b.req)
-	// Range over a value loaded from a field of type http.Header of the receiver
+// headerLoopSites: the instructions of fn at which the transport's configured headers are added to request req — a
+// loop over an http.Header-typed field whose body adds to req's header, or a call handing req to a library helper
+// that does so on all of its paths (followed two levels deep, so extracting the loop into a helper changes nothing).
+func headerLoopSites(c *Ctx, fn *ssa.Function, req ssa.Value, depth int) (sites []ssa.Instruction, iteratedOnly bool) {
+	reqVals := derivedReq(req)
 	var ranges []*ssa.Range
-	ir.EachInstr(b.fn, func(_ *ssa.BasicBlock, _ int, in ssa.Instruction) {
+	ir.EachInstr(fn, func(_ *ssa.BasicBlock, _ int, in ssa.Instruction) {
 		r, ok := in.(*ssa.Range)
 		if !ok {
 			return
@@ -419,12 +421,8 @@ func staticHeadersApplied(c *Ctx, b *builder) (bool, string) {
 			ranges = append(ranges, r)
 		}
 	})
-	if len(ranges) == 0 {
-		return false, "no loop over the transport's configured http.Header field: static headers are not added to this request"
-	}
-	// an Add/Set on this request's header inside the function
 	adds := false
-	ir.EachCall(b.fn, func(call ssa.CallInstruction) {
+	ir.EachCall(fn, func(call ssa.CallInstruction) {
 		n := ir.CallName(call)
 		if (n == "(net/http.Header).Add" || n == "(net/http.Header).Set") && len(call.Common().Args) == 3 {
 			if headerOfReq(call.Common().Args[0], reqVals) {
@@ -435,14 +433,92 @@ func staticHeadersApplied(c *Ctx, b *builder) (bool, string) {
 			}
 		}
 	})
-	if !adds {
-		return false, "the configured headers are iterated but not added to this request's header"
+	if adds {
+		for _, r := range ranges {
+			sites = append(sites, r)
+		}
+	} else if len(ranges) > 0 {
+		iteratedOnly = true
 	}
-	for _, r := range ranges {
-		for _, d := range b.dispatch {
-			if !flow.Dominates(r, d) {
-				return false, "a dispatch of the request is reachable without passing the static-header loop"
+	if depth < 2 {
+		for _, hc := range helperCallsWithReq(c, fn, reqVals) {
+			inner, _ := headerLoopSites(c, hc.callee, hc.param, depth+1)
+			if onAllPaths(hc.callee, inner) {
+				sites = append(sites, hc.call)
 			}
+		}
+	}
+	return sites, iteratedOnly
+}
+
+type reqHelperCall struct {
+	call   ssa.Instruction
+	callee *ssa.Function
+	param  *ssa.Parameter
+}
+
+// helperCallsWithReq: static calls in fn to library functions that receive one of the request values.
+func helperCallsWithReq(c *Ctx, fn *ssa.Function, reqVals map[ssa.Value]bool) []reqHelperCall {
+	var out []reqHelperCall
+	ir.EachInstr(fn, func(_ *ssa.BasicBlock, _ int, in ssa.Instruction) {
+		call, ok := in.(*ssa.Call)
+		if !ok {
+			return
+		}
+		sc := ir.StaticCallee(call)
+		if sc == nil || !c.P.IsLib(sc) || sc == fn {
+			return
+		}
+		for i, a := range call.Call.Args {
+			if reqVals[a] && i < len(sc.Params) && isHTTPRequestPtr(sc.Params[i].Type()) {
+				out = append(out, reqHelperCall{call, sc, sc.Params[i]})
+			}
+		}
+	})
+	return out
+}
+
+// onAllPaths: some site dominates every return of fn.
+func onAllPaths(fn *ssa.Function, sites []ssa.Instruction) bool {
+	if len(sites) == 0 {
+		return false
+	}
+	ok := true
+	ir.EachInstr(fn, func(_ *ssa.BasicBlock, _ int, in ssa.Instruction) {
+		r, isRet := in.(*ssa.Return)
+		if !isRet {
+			return
+		}
+		dom := false
+		for _, s := range sites {
+			if flow.Dominates(s, r) {
+				dom = true
+			}
+		}
+		if !dom {
+			ok = false
+		}
+	})
+	return ok
+}
+
+func staticHeadersApplied(c *Ctx, b *builder) (bool, string) {
+	sites, iteratedOnly := headerLoopSites(c, b.fn, b.req, 0)
+	if len(sites) == 0 {
+		if iteratedOnly {
+			return false, "the configured headers are iterated but not added to this request's header"
+		}
+		return false, "no loop over the transport's configured http.Header field: static headers are not added to this request"
+	}
+	for _, d := range b.dispatch {
+		dom := false
+		for _, s := range sites {
+			if flow.Dominates(s, d) {
+				dom = true
+			}
+		}
+		if !dom {
+			return false, "a dispatch of the request is reachable without passing the static-header loop"
 		}
 	}
 	return true, "every dispatch is dominated by the loop adding the configured headers to this request"
@@ -682,10 +758,13 @@ func pathToDispatchAvoiding(fn *ssa.Function, from ssa.Instruction, isHook, isDi
 }
 
 // appliesPath: the builder stores a value loaded from a string field of its receiver into req.URL.Path.
-func appliesPath(b *builder) bool {
-	reqVals := derivedReq(b.req)
+func appliesPath(c *Ctx, b *builder) bool { return appliesPathIn(c, b.fn, b.req, 0) }
+
+// appliesPathIn: fn stores a configured (field-loaded) path into req.URL.Path, itself or through a helper given req.
+func appliesPathIn(c *Ctx, fn *ssa.Function, req ssa.Value, depth int) bool {
+	reqVals := derivedReq(req)
 	found := false
-	ir.EachInstr(b.fn, func(_ *ssa.BasicBlock, _ int, in ssa.Instruction) {
+	ir.EachInstr(fn, func(_ *ssa.BasicBlock, _ int, in ssa.Instruction) {
 		st, ok := in.(*ssa.Store)
 		if !ok {
 			return
@@ -715,13 +794,22 @@ func appliesPath(b *builder) bool {
 			found = true
 		}
 	})
+	if !found && depth < 2 {
+		for _, hc := range helperCallsWithReq(c, fn, reqVals) {
+			if appliesPathIn(c, hc.callee, hc.param, depth+1) {
+				found = true
+			}
+		}
+	}
 	return found
 }
 
-func setsHeaderConst(b *builder, key string) bool {
-	reqVals := derivedReq(b.req)
+func setsHeaderConst(c *Ctx, b *builder, key string) bool { return setsHeaderConstIn(c, b.fn, b.req, key, 0) }
+
+func setsHeaderConstIn(c *Ctx, fn *ssa.Function, req ssa.Value, key string, depth int) bool {
+	reqVals := derivedReq(req)
 	found := false
-	ir.EachCall(b.fn, func(call ssa.CallInstruction) {
+	ir.EachCall(fn, func(call ssa.CallInstruction) {
 		n := ir.CallName(call)
 		if n != "(net/http.Header).Set" && n != "(net/http.Header).Add" {
 			return
@@ -734,5 +822,12 @@ func setsHeaderConst(b *builder, key string) bool {
 			found = true
 		}
 	})
+	if !found && depth < 2 {
+		for _, hc := range helperCallsWithReq(c, fn, reqVals) {
+			if setsHeaderConstIn(c, hc.callee, hc.param, key, depth+1) {
+				found = true
+			}
+		}
+	}
 	return found
 }
